@@ -1,3 +1,181 @@
-(* C07 -- placeholder while the harness is being brought up *)
-From Coq Require Import ZArith List Bool.
-From PV Require Import C07.Model.
+(* C07 -- Bitmask names and values convert consistently for any maskbits file.
+   Property theorems only; each is closed by `exact` and followed by Print Assumptions.
+
+   M = C07.Model.{load, flagval, flagname, flagexist}: transliteration of set_maskbits / sdss_flagval /
+       sdss_flagname / sdss_flagexist (pydl/pydlutils/sdss.py); rows = what the raw yanny reader returns.
+   S = C07.Model.{spec_flagval, spec_flagname, spec_flagexist, spec_vnv, spec_nvn} on the raw rows.
+   wf_file = bits 0..63, one bit per label and one label per bit within a group (modulo case), every alias
+   names an existing group (or earlier alias) and is a new name.
+   `load true` stores the names upper-cased; the last theorem says that this is what the source does
+   (Generated/Maskbits.v is rewritten from sdss.py on every run). *)
+From Coq Require Import ZArith List Bool Sorting.Permutation Sorting.Sorted.
+Import ListNotations.
+From PV Require Import C07.Model C07.Dict C07.Group C07.Proofs Generated.Maskbits.
+Open Scope Z_scope.
+
+(* a well-formed file always loads (no KeyError from an alias) *)
+Theorem C07_load_total : forall rows aliases,
+  wf_file rows aliases = true -> exists m, load true rows aliases = Some m.
+Proof. exact load_total. Qed.
+Print Assumptions C07_load_total.
+
+(* what the dictionary holds: under every spelling of a group or alias name, the (LABEL, bit) rows of the group in file order *)
+Theorem C07_load_spec : forall rows aliases, wf_file rows aliases = true ->
+  exists m, load true rows aliases = Some m /\
+    (forall g, dget (upper g) m = if known rows aliases g then Some (defs rows aliases g) else None) /\
+    (forall f a, In (f, a) aliases -> dget (upper a) m = dget (upper f) m).
+Proof. exact load_spec. Qed.
+Print Assumptions C07_load_spec.
+
+(* M refines S on every call the correspondence run makes (flagval, flagname +concat, flagexist, both round trips) *)
+Theorem C07_model_refines_spec : forall rows aliases m,
+  wf_file rows aliases = true -> load true rows aliases = Some m ->
+  forall c s, spec_call rows aliases c = Some s -> model_call m c = s.
+Proof. exact model_refines_spec. Qed.
+Print Assumptions C07_model_refines_spec.
+
+(* the uint64 `+=` of distinct labels of a well-formed group is the OR of 2^bit (or KeyError) *)
+Theorem C07_uint64_sum_is_or : forall d ls, wf_group d -> NoDup ls ->
+  flagval_loop (Some d) ls 0 = match bits_of d ls with Some bs => RVal (or_bits bs) | None => RKeyError end.
+Proof. exact flagval_group. Qed.
+Print Assumptions C07_uint64_sum_is_or.
+
+(* names -> value: distinct labels (any order, any case) give exactly the OR of 2^bit; it fits in 64 bits, bit 63 included *)
+Theorem C07_flagval_is_or : forall rows aliases m,
+  wf_file rows aliases = true -> load true rows aliases = Some m ->
+  forall g ls bs, known rows aliases g = true -> distinct_labels ls = true ->
+  bits_of (defs rows aliases g) (map upper ls) = Some bs ->
+  flagval m g ls = RVal (or_bits bs) /\ 0 <= or_bits bs < 2 ^ 64 /\
+  (forall n, Z.testbit (or_bits bs) n = true <-> In n bs).
+Proof. exact flagval_is_or. Qed.
+Print Assumptions C07_flagval_is_or.
+
+(* value -> names: for every 64-bit value, the labels of exactly the defined set bits, strictly ascending in bit *)
+Theorem C07_flagname_spec : forall rows aliases m,
+  wf_file rows aliases = true -> load true rows aliases = Some m ->
+  forall g v, known rows aliases g = true -> in_u64 v = true ->
+  exists pairs, flagname m g v = RNames (map fst pairs) /\
+    StronglySorted lt_snd pairs /\
+    (forall l b, In (l, b) pairs <-> In (l, b) (defs rows aliases g) /\ Z.testbit v b = true).
+Proof. exact flagname_spec. Qed.
+Print Assumptions C07_flagname_spec.
+
+(* ... and that description determines the answer (S is sound and complete for it) *)
+Theorem C07_names_determined : forall d v pairs, wf_group d ->
+  (StronglySorted lt_snd pairs /\ (forall lb, In lb pairs <-> In lb d /\ Z.testbit v (snd lb) = true))
+  <-> pairs = selected d v.
+Proof. exact selected_char. Qed.
+Print Assumptions C07_names_determined.
+
+Theorem C07_defs_wellformed : forall rows aliases m,
+  wf_file rows aliases = true -> load true rows aliases = Some m ->
+  forall g, wf_group (defs rows aliases g).
+Proof. exact defs_wf. Qed.
+Print Assumptions C07_defs_wellformed.
+
+(* value -> names -> value is the identity on the defined bits *)
+Theorem C07_val_names_val : forall rows aliases m,
+  wf_file rows aliases = true -> load true rows aliases = Some m ->
+  forall g v, known rows aliases g = true -> in_u64 v = true ->
+  match flagname m g v with RNames ns => flagval m g ns | r => r end
+  = RVal (Z.land v (defined_mask (defs rows aliases g))).
+Proof. exact val_names_val. Qed.
+Print Assumptions C07_val_names_val.
+
+(* names -> value -> names gives the same labels back (ordered by bit) *)
+Theorem C07_names_val_names : forall rows aliases m,
+  wf_file rows aliases = true -> load true rows aliases = Some m ->
+  forall g ls bs, known rows aliases g = true -> distinct_labels ls = true ->
+  bits_of (defs rows aliases g) (map upper ls) = Some bs ->
+  exists ns, match flagval m g ls with RVal v => flagname m g v | r => r end = RNames ns /\
+             Permutation ns (map upper ls) /\ ns = spec_names (defs rows aliases g) (or_bits bs).
+Proof. exact names_val_names. Qed.
+Print Assumptions C07_names_val_names.
+
+(* case of the arguments is irrelevant (any table) *)
+Theorem C07_case_insensitive_args : forall (m : table) g g', upper g = upper g' ->
+  (forall ls ls', map upper ls = map upper ls' -> flagval m g ls = flagval m g' ls') /\
+  (forall v, flagname m g v = flagname m g' v) /\
+  (forall ls ls' fe we, map upper ls = map upper ls' -> flagexist m g ls fe we = flagexist m g' ls' fe we).
+Proof. exact case_insensitive_args. Qed.
+Print Assumptions C07_case_insensitive_args.
+
+(* case of the names in the file is irrelevant *)
+Theorem C07_case_insensitive_file : forall rows aliases,
+  load true (map upper_row rows) (map upper_arow aliases) = load true rows aliases.
+Proof. exact load_file_case. Qed.
+Print Assumptions C07_case_insensitive_file.
+
+(* an alias answers every query exactly as the group it names *)
+Theorem C07_alias_same : forall rows aliases m,
+  wf_file rows aliases = true -> load true rows aliases = Some m ->
+  forall f a, In (f, a) aliases ->
+  (forall ls, flagval m a ls = flagval m f ls) /\
+  (forall v, flagname m a v = flagname m f v) /\
+  (forall ls fe we, flagexist m a ls fe we = flagexist m f ls fe we).
+Proof. exact alias_same. Qed.
+Print Assumptions C07_alias_same.
+
+Theorem C07_unknown_group_keyerror : forall rows aliases m,
+  wf_file rows aliases = true -> load true rows aliases = Some m ->
+  forall g, known rows aliases g = false ->
+  (forall ls, ls <> [] -> flagval m g ls = RKeyError) /\
+  (forall v, in_u64 v = true -> v <> 0 -> flagname m g v = RKeyError).
+Proof. exact unknown_group_keyerror. Qed.
+Print Assumptions C07_unknown_group_keyerror.
+
+Theorem C07_unknown_label_keyerror : forall rows aliases m,
+  wf_file rows aliases = true -> load true rows aliases = Some m ->
+  forall g ls, known rows aliases g = true ->
+  (exists l, In l ls /\ has (upper l) (defs rows aliases g) = false) -> flagval m g ls = RKeyError.
+Proof. exact unknown_label_keyerror. Qed.
+Print Assumptions C07_unknown_label_keyerror.
+
+(* a zero value names nothing: any table, any group, known or not (the lookup is never reached) *)
+Theorem C07_zero_names_nothing : forall (m : table) g, flagname m g 0 = RNames [].
+Proof. exact zero_names_nothing. Qed.
+Print Assumptions C07_zero_names_nothing.
+
+(* the existence query never raises: any table, any group, any labels *)
+Theorem C07_flagexist_total : forall (m : table) g ls fe we,
+  exists l, flagexist m g ls fe we = RBools l /\
+            length l = (1 + (if fe then 1 else 0) + (if we then length ls else 0))%nat.
+Proof. exact flagexist_total. Qed.
+Print Assumptions C07_flagexist_total.
+
+(* ... and reports the group and, per label, whether it is defined *)
+Theorem C07_flagexist_spec : forall rows aliases m,
+  wf_file rows aliases = true -> load true rows aliases = Some m ->
+  forall g ls fe we, flagexist m g ls fe we = spec_flagexist rows aliases g ls fe we.
+Proof. exact flagexist_refines. Qed.
+Print Assumptions C07_flagexist_spec.
+
+(* a file whose names are already upper-case is loaded identically with and without normalisation
+   (why the shipped upper-case sdssMaskbits.par works either way) *)
+Theorem C07_upper_file_loads_alike : forall rows aliases,
+  Forall row_is_upper rows -> Forall arow_is_upper aliases -> load false rows aliases = load true rows aliases.
+Proof. exact load_upper_file. Qed.
+Print Assumptions C07_upper_file_loads_alike.
+
+(* non-vacuity: a mixed-case file with bit 63 and an alias satisfies the hypotheses, and the answers are the expected ones *)
+Definition ex_rows : list row :=
+  [([84; 97; 114; 103; 101; 116], 63, [72; 105]); ([84; 65; 82; 71; 69; 84], 0, [108; 111]); ([79; 116; 104; 101; 114], 5, [120])].   (* Target 63 Hi; TARGET 0 lo; Other 5 x *)
+Definition ex_aliases : list arow := [([116; 97; 114; 103; 101; 116], [80; 114; 105; 109])].                                  (* target Prim *)
+Example C07_example :
+  wf_file ex_rows ex_aliases = true /\
+  match load true ex_rows ex_aliases with
+  | Some m =>
+      flagval m [112; 114; 105; 109] [[72; 73]; [76; 111]] = RVal (2 ^ 63 + 1) /\
+      flagname m [80; 82; 73; 77] (2 ^ 63 + 2 + 1) = RNames [[76; 79]; [72; 73]] /\
+      flagname m [110; 111; 110; 101; 115; 117; 99; 104] 0 = RNames [] /\ flagname m [110; 111; 110; 101; 115; 117; 99; 104] 1 = RKeyError /\
+      flagexist m [84; 97; 114; 103; 101; 116] [[104; 105]; [122; 122]] true true = RBools [false; true; true; false]
+  | None => False
+  end.
+Proof. vm_compute. repeat split; reflexivity. Qed.
+
+(* the source normalises the names it stores (GENERATED flag): without this, every theorem above is about a
+   dictionary the code only builds for all-upper-case files.  Kept last: it fails when set_maskbits stores
+   the file's spelling. *)
+Theorem C07_code_normalises : load_upper = true.
+Proof. exact (eq_refl true). Qed.
+Print Assumptions C07_code_normalises.
